@@ -425,6 +425,21 @@ func (a *apiRun) call(c *sx) (string, *lungo.Handle) {
 			return errClass(err), &h
 		}
 		return fmt.Sprintf("(n %d)", n), &h
+	case "estCount":
+		co, h := a.coll(c)
+		n, err := co.EstimatedDocumentCount(ctx)
+		if err != nil {
+			return errClass(err), &h
+		}
+		return fmt.Sprintf("(n %d)", n), &h
+	case "updateById":
+		co, h := a.coll(c)
+		o := options.Update().SetUpsert(tb(c.list[6]))
+		if len(c.list[7].list) > 0 {
+			o.SetArrayFilters(afOpt(c.list[7]))
+		}
+		r, err := co.UpdateByID(ctx, decValue(c.list[4]), decValue(c.list[5]), o)
+		return updRes(a.cn, r, err), &h
 	case "distinct":
 		co, h := a.coll(c)
 		vs, err := co.Distinct(ctx, unhx(c.list[4].atom), decValue(c.list[5]))
@@ -1169,6 +1184,17 @@ func (g *apiGen) call() string {
 		return "(insertMany " + s + " " + t + " " + tf(r.chance(1, 2)) + " " + strings.Join(parts, " ") + ")"
 	case k < 34:
 		up := r.chance(1, 3)
+		if r.chance(1, 8) {
+			// UpdateByID: an id that exists, one that may, documents and arrays as ids are left to the id pool
+			var id interface{} = g.id()
+			if len(g.knownIDs) > 0 && r.chance(2, 3) {
+				id = pick(r, g.knownIDs)
+			}
+			if id == nil {
+				id = int32(1)
+			}
+			return "(updateById " + s + " " + t + " " + enc(id) + " " + enc(g.update()) + " " + tf(up) + " ())"
+		}
 		mode := pick(r, []string{"one", "many"})
 		flt := g.filterU(up)
 		if mode == "many" && r.chance(1, 3) {
@@ -1213,6 +1239,9 @@ func (g *apiGen) call() string {
 	case k < 71:
 		return "(findOne " + s + " " + t + " " + enc(g.filter()) + " " + g.sortSpec() + " " + g.projection() + " " + strconv.Itoa(pick(r, []int{0, 0, 1, 3})) + ")"
 	case k < 74:
+		if r.chance(1, 4) {
+			return "(estCount " + s + " " + t + ")"
+		}
 		return "(count " + s + " " + t + " " + enc(g.filter()) + " " + strconv.Itoa(pick(r, []int{0, 0, 1, 3})) + " " + strconv.Itoa(pick(r, []int{0, 0, 1, 2})) + ")"
 	case k < 77:
 		return "(distinct " + s + " " + t + " " + hx(pick(r, []string{"a", "b", "c", "_id"})) + " " + enc(g.filter()) + ")"
